@@ -1,8 +1,325 @@
 import RbV.Basic.Codec
-/-! Driver for property C11 (line protocol → verdict). -/
-namespace RbV.Drv.C11
-open RbV.Codec
+import RbV.Model.Fasta
+import RbV.Model.Fastq
+/-! Driver for property C11: FASTA/FASTQ round trip, layout independence, truncation, sniffer.
+Line formats: see `harness/src/c11.rs`.
 
-def verdict (_toks : List String) (_out : String) : String := "bad-op unimplemented"
+What is decided (property level):
+* `w`   : the writer's bytes equal `writeFasta wrap recs` / `writeFastq recs`; every reader configuration
+          (buffer capacity, read fragmentation, iterator or reused record) yields exactly the original records,
+          each passing `check()` iff it has an id.  (By `fasta_roundtrip` / `fastq_roundtrip` the model parse of these
+          bytes is `recs`; the driver evaluates it as well.)
+* `lay` : the same for any line layout of the records (re-wrapped, blank lines, CRLF, multi-line FASTQ).
+* `fx`  : every sniffing entry point names the writer's format, `get_kind_seek` leaves the position unchanged, and
+          the records obtained through the sniffer are the original ones.
+* `cut` : no `PANIC`/`HANG`/endless iteration; for FASTQ the records that pass `check()` form a sub-list of the original
+          records in the original order.  Differences to the model's parse of the prefix are tagged `drift`.
+* `raw` : arbitrary bytes: only `PANIC`/`HANG`/endless iteration are violations; differences to the model are `drift`
+          (`drift-nonascii` when the input has bytes ≥ 0x80, where the model does not claim to follow UTF-8 rules). -/
+namespace RbV.Drv.C11
+open RbV.Codec RbV.Fastx
+
+structure GRec where
+  id : Bytes
+  desc : Option Bytes
+  seq : Bytes
+  qual : Option Bytes
+deriving DecidableEq, Repr
+
+inductive GItem where
+  | r (g : GRec) (chk : Bool)
+  | e (cls : String)
+deriving DecidableEq, Repr
+
+def parseDesc (s : String) : Option (Option Bytes) :=
+  if s = "_" then some none else (parseHex s).map some
+
+def ofFa (r : FaRec) : GRec := ⟨r.id, r.desc, r.seq, none⟩
+def ofFq (r : FqRec) : GRec := ⟨r.id, r.desc, r.seq, some r.qual⟩
+def toFa (g : GRec) : FaRec := ⟨g.id, g.desc, g.seq⟩
+def toFq (g : GRec) : FqRec := ⟨g.id, g.desc, g.seq, g.qual.getD []⟩
+
+def gcheck (g : GRec) : Bool :=
+  match g.qual with
+  | none => (toFa g).check
+  | some _ => (toFq g).check
+
+def parseRec (fq : Bool) (s : String) : Option GRec :=
+  match s.splitOn ":", fq with
+  | [a, b, c], false => do pure ⟨← parseHex a, ← parseDesc b, ← parseHex c, none⟩
+  | [a, b, c, d], true => do pure ⟨← parseHex a, ← parseDesc b, ← parseHex c, some (← parseHex d)⟩
+  | _, _ => none
+
+def parseRecs (fq : Bool) (s : String) : Option (List GRec) := parseList (parseRec fq) s '/'
+
+def parseItem (s : String) : Option GItem :=
+  match s.splitOn ":" with
+  | ["e", c] => some (.e c)
+  | ["r", a, b, c, k] => do
+    let g : GRec := ⟨← parseHex a, ← parseDesc b, ← parseHex c, none⟩
+    if k = "1" then pure (.r g true) else if k = "0" then pure (.r g false) else none
+  | ["r", a, b, c, d, k] => do
+    let g : GRec := ⟨← parseHex a, ← parseDesc b, ← parseHex c, some (← parseHex d)⟩
+    if k = "1" then pure (.r g true) else if k = "0" then pure (.r g false) else none
+  | _ => none
+
+def parseItems (s : String) : Option (List GItem) := parseList parseItem s '/'
+
+def modelFa (file : Bytes) : List GItem :=
+  (parseFasta file).map fun
+    | .ok r => .r (ofFa r) r.check
+    | .err => .e "start"
+
+def modelFq (file : Bytes) : List GItem :=
+  (parseFastq file).map fun
+    | .ok r => .r (ofFq r) r.check
+    | .missingAt => .e "at"
+    | .incomplete => .e "inc"
+
+def model (fq : Bool) (file : Bytes) : List GItem := if fq then modelFq file else modelFa file
+
+def validRec (fq : Bool) (g : GRec) : Bool :=
+  if fq then decide (ValidFq (toFq g)) else decide (ValidFa (toFa g))
+
+def expected (recs : List GRec) : List GItem := recs.map fun g => .r g (gcheck g)
+
+def parseWrap (s : String) : Option (Option Nat) :=
+  if s = "none" then some none else match s.toNat? with
+    | some w => if w = 0 then none else some (some w)
+    | none => none
+
+def writerBytes (fq : Bool) (wrap : Option Nat) (recs : List GRec) : Bytes :=
+  if fq then writeFastq (recs.map toFq) else writeFasta wrap (recs.map toFa)
+
+def hasLoop (l : List GItem) : Bool := l.any fun | .e c => c = "LOOP" | _ => false
+
+def isBadRun (out : String) : Bool := out.startsWith "PANIC" || out.startsWith "HANG" || out.startsWith "CRASH"
+
+/-- the tokens of an observation: `F:<hex>` first (optional), then the others -/
+def obsToks (out : String) : List String := (out.splitOn " ").filter (· ≠ "")
+
+def stripPrefix (p : String) (s : String) : Option String :=
+  if s.startsWith p then some (s.drop p.length).toString else none
+
+def isNonAscii (b : Bytes) : Bool := b.any (· ≥ 128)
+
+/-- every `R:` token equals the expected item list -/
+def checkRs (exp : List GItem) (rs : List String) (i : Nat := 0) : Option String :=
+  match rs with
+  | [] => none
+  | r :: rest =>
+    match stripPrefix "R:" r with
+    | none => some "unparsable-observation"
+    | some body =>
+      match parseItems body with
+      | none => some "unparsable-observation"
+      | some items =>
+        if hasLoop items then some ("endless-iteration-cfg" ++ toString i)
+        else if items = exp then checkRs exp rest (i + 1)
+        else some ("records-differ-cfg" ++ toString i)
+
+def tagsOf (fq : Bool) (recs : List GRec) (multiline : Bool) : String :=
+  let q := recs.any fun g => match g.qual with
+    | some (c :: _) => c = 64 || c = 43
+    | _ => false
+  let nt := recs.length ≥ 2 && (multiline || q)
+  (if nt then " nt" else "") ++ (if fq then " fq" else " fa") ++ (if multiline then " multiline" else "")
+    ++ (if q then " qual@+" else "") ++ (if recs.any (fun g => g.desc.isSome) then " desc" else "")
+    ++ (if recs.any (fun g => g.id.isEmpty) then " noid" else "")
+    ++ (if recs.any (fun g => isNonAscii g.id || (g.desc.map isNonAscii).getD false) then " utf8" else "")
+
+/-- layout records -/
+def parseWidths (s : String) : Option (List Nat) := parseNatList s
+
+def cutPieces : Bytes → List Nat → Option (List Bytes)
+  | s, [] => if s.isEmpty then some [] else none
+  | s, w :: ws => if w ≤ s.length then (cutPieces (s.drop w) ws).map (s.take w :: ·) else none
+
+def eolOf (s : String) : Option Bytes := if s = "n" then some [10] else if s = "r" then some [13, 10] else none
+
+def parseLayFa (s : String) : Option (GRec × List Bytes × Bytes) :=
+  match s.splitOn ":" with
+  | [a, b, c, e, w] => do
+    let g : GRec := ⟨← parseHex a, ← parseDesc b, ← parseHex c, none⟩
+    let ps ← cutPieces g.seq (← parseWidths w)
+    pure (g, ps, ← eolOf e)
+  | _ => none
+
+def parseLayFq (s : String) : Option (GRec × FqLayout) :=
+  match s.splitOn ":" with
+  | [a, b, c, d, e, p, sw, qw] => do
+    let q ← parseHex d
+    let g : GRec := ⟨← parseHex a, ← parseDesc b, ← parseHex c, some q⟩
+    let sp ← cutPieces g.seq (← parseWidths sw)
+    let qp ← cutPieces q (← parseWidths qw)
+    pure (g, { seqPieces := sp, qualPieces := qp, eol := ← eolOf e, plus := ← parseHex p })
+  | _ => none
+
+def layoutOkFq (y : FqLayout) : Bool :=
+  y.seqPieces.length == y.qualPieces.length && y.seqPieces.all (fun p => p.head? != some 43) && !y.plus.contains 10
+
+def isSublist : List GRec → List GRec → Bool
+  | [], _ => true
+  | _ :: _, [] => false
+  | a :: as, b :: bs => if a = b then isSublist as bs else isSublist (a :: as) bs
+
+def kindName : Option Kind → String
+  | some .fasta => "fa" | some .fastq => "fq" | none => "e"
+
+def verdict (toks : List String) (out : String) : String :=
+  if isBadRun out then "reject " ++ out else
+  match toks with
+  | [op, fmt, ws, rs, _cfgs] =>
+    if op ≠ "w" ∧ op ≠ "fx" then "bad-op op" else
+    let fq := fmt = "fq"
+    if fmt ≠ "fa" ∧ fmt ≠ "fq" then "bad-op format" else
+    match parseWrap ws, parseRecs fq rs with
+    | some wrap, some recs =>
+      if !recs.all (validRec fq) then "bad-op invalid-record" else
+      let fbytes := writerBytes fq wrap recs
+      let exp := expected recs
+      if model fq fbytes ≠ exp then "bad-op model-does-not-round-trip" else
+      match obsToks out with
+      | f :: rest =>
+        match (stripPrefix "F:" f).bind parseHex with
+        | none => "bad-op observation"
+        | some fobs =>
+          if fobs ≠ fbytes then "reject writer-bytes-expected-" ++ toHex fbytes else
+          let multiline := match wrap with
+            | some w => recs.any (fun g => g.seq.length > w)
+            | none => false
+          let tags := tagsOf fq recs multiline
+          if op = "w" then
+            match checkRs exp rest with
+            | some r => "reject " ++ r
+            | none => "ok" ++ tags ++ " writer"
+          else
+            -- fx: groups of `K:a,b,c R:.. R:..`
+            let rec goFx (i : Nat) : List String → String
+              | [] => "ok" ++ tags ++ " sniffer"
+              | k :: r1 :: r2 :: more =>
+                let want := if fq then "fq" else "fa"
+                if k ≠ "K:" ++ want ++ "," ++ want ++ "," ++ want then "reject sniffer-kind-cfg" ++ toString i ++ "-" ++ k
+                else match checkRs exp [r1, r2] with
+                  | some r => "reject sniffer-" ++ r ++ "-cfg" ++ toString i
+                  | none => goFx (i + 1) more
+              | _ => "reject observation-shape"
+            goFx 0 rest
+      | [] => "bad-op observation"
+    | _, _ => "bad-op parse"
+  | ["lay", fmt, ls, _cfgs] =>
+    let fq := fmt = "fq"
+    if fmt ≠ "fa" ∧ fmt ≠ "fq" then "bad-op format" else
+    -- `strict`: the layout is a plain re-wrapping (no blank lines, FASTQ: qualities wrapped like the sequence,
+    -- bare `+` line) — what the property text names; the other layouts the theorems cover are compared as `drift`
+    let built : Option (List GRec × Bytes × Bool × Bool × Bool) :=
+      if fq then do
+        let l ← parseList parseLayFq ls '/'
+        if !l.all (fun x => layoutOkFq x.2) then none else
+        pure (l.map (·.1), layoutFastq (l.map fun x => (toFq x.1, x.2)),
+              l.any (fun x => x.2.seqPieces.length > 1), l.any (fun x => x.2.eol.length = 2),
+              l.all (fun x => x.2.plus.isEmpty && x.2.seqPieces.all (!·.isEmpty)
+                && x.2.seqPieces.map (·.length) == x.2.qualPieces.map (·.length)))
+      else do
+        let l ← parseList parseLayFa ls '/'
+        pure (l.map (·.1), layoutFasta (l.map fun x => (toFa x.1, x.2.1, x.2.2)),
+              l.any (fun x => x.2.1.length > 1), l.any (fun x => x.2.2.length = 2),
+              l.all (fun x => x.2.1.all (!·.isEmpty)))
+    match built with
+    | none => "bad-op layout"
+    | some (recs, fbytes, multi, crlf, strict) =>
+      if !recs.all (validRec fq) then "bad-op invalid-record" else
+      let exp := expected recs
+      if model fq fbytes ≠ exp then "bad-op model-does-not-parse-layout" else
+      match obsToks out with
+      | f :: rest =>
+        match (stripPrefix "F:" f).bind parseHex with
+        | none => "bad-op observation"
+        | some fobs =>
+          if fobs ≠ fbytes then "bad-op layout-bytes-differ" else
+          match checkRs exp rest with
+          | some r =>
+            if strict || r.startsWith "endless" then "reject " ++ r
+            else "ok" ++ tagsOf fq recs multi ++ " layout layout-extended drift"
+          | none => "ok" ++ tagsOf fq recs multi ++ " layout" ++ (if crlf then " crlf" else "")
+              ++ (if strict then " layout-strict" else " layout-extended")
+      | [] => "bad-op observation"
+  | ["cut", fmt, ws, rs, os, _cfg] =>
+    let fq := fmt = "fq"
+    if fmt ≠ "fa" ∧ fmt ≠ "fq" then "bad-op format" else
+    match parseWrap ws, parseRecs fq rs with
+    | some wrap, some recs =>
+      if !recs.all (validRec fq) then "bad-op invalid-record" else
+      let fbytes := writerBytes fq wrap recs
+      let offs? : Option (List Nat) := if os = "all" then some (List.range (fbytes.length + 1)) else parseNatList os
+      match offs?, obsToks out with
+      | some offs, f :: rest =>
+        match (stripPrefix "F:" f).bind parseHex with
+        | none => "bad-op observation"
+        | some fobs =>
+          if fobs ≠ fbytes then "reject writer-bytes-expected-" ++ toHex fbytes else
+          if rest.length ≠ offs.length then "reject observation-count" else
+          let rec goCut (drift : Bool) (part : Bool) : List Nat → List String → String
+            | c :: cs, t :: ts =>
+              match t.splitOn "+" with
+              | [ks, body] =>
+                match ks.toNat?, parseItems body with
+                | some k, some tail =>
+                  if k > recs.length then "reject cut" ++ toString c ++ "-more-records-than-written" else
+                  let items := expected (recs.take k) ++ tail
+                  if hasLoop items then "reject cut" ++ toString c ++ "-endless-iteration" else
+                  let good := items.filterMap fun | .r g true => some g | _ => none
+                  if fq && !isSublist good recs then
+                    "reject cut" ++ toString c ++ "-checked-record-not-original"
+                  else
+                    let d := model fq (fbytes.take c) ≠ items
+                    goCut (drift || d) (part || tail.any (fun | .r _ _ => true | _ => false)) cs ts
+                | _, _ => "bad-op observation"
+              | _ => "bad-op observation"
+            | _, _ => "ok" ++ tagsOf fq recs false ++ " cut" ++ (if drift then (if isNonAscii fbytes then " drift-nonascii" else " drift") else "")
+                  ++ (if part then " partial-record" else "")
+          goCut false false offs rest
+      | _, _ => "bad-op parse"
+    | _, _ => "bad-op parse"
+  | ["raw", fmt, hx, _cfgs] =>
+    match parseHex hx with
+    | none => "bad-op hex"
+    | some file =>
+      let na := isNonAscii file
+      let dtag := if na then " drift-nonascii" else " drift"
+      let base := " raw" ++ (if na then " nonascii" else "")
+      if fmt = "fx" then
+        let k := kindName (sniff file)
+        let m : List GItem := match sniff file with
+          | some .fasta => modelFa file
+          | some .fastq => modelFq file
+          | none => []
+        let rec goFxRaw (drift : Bool) : List String → String
+          | [] => "ok" ++ base ++ " fx" ++ (if drift then dtag else "") ++ " k-" ++ k
+          | kt :: r1 :: r2 :: more =>
+            match (stripPrefix "R:" r1).bind parseItems, (stripPrefix "R:" r2).bind parseItems with
+            | some i1, some i2 =>
+              if hasLoop i1 || hasLoop i2 then "reject endless-iteration" else
+              let kexp := if k = "e" then kt.startsWith "K:e" else kt = "K:" ++ k ++ "," ++ k ++ "," ++ k
+              -- after a failed sniff `EitherRecords` reports the error as an item (illegal start) or ends (empty)
+              let d := !kexp || (if k = "e" then false else i1 ≠ m || i2 ≠ m)
+              goFxRaw (drift || d) more
+            | _, _ => "bad-op observation"
+          | _ => "bad-op observation-shape"
+        goFxRaw false (obsToks out)
+      else if fmt = "fa" ∨ fmt = "fq" then
+        let m := model (fmt = "fq") file
+        let rec goRaw (drift : Bool) : List String → String
+          | [] => "ok" ++ base ++ " " ++ fmt ++ (if drift then dtag else "")
+              ++ (if m.any (fun | .e _ => true | _ => false) then " m-err" else "")
+              ++ (if m.any (fun | .r _ _ => true | _ => false) then " m-rec" else "")
+          | r :: more =>
+            match (stripPrefix "R:" r).bind parseItems with
+            | some items =>
+              if hasLoop items then "reject endless-iteration" else goRaw (drift || items ≠ m) more
+            | none => "bad-op observation"
+        goRaw false (obsToks out)
+      else "bad-op format"
+  | _ => "bad-op arity"
 
 end RbV.Drv.C11
